@@ -147,6 +147,11 @@ impl MiniCnt {
 /// Exp(rate = 2^-(col+1) / k) time; cells whose time is <= n are returned in time order.
 /// `warp[col]` multiplies the arrival times of a column (1.0 = the law of a real hashed stream).
 pub fn simulate(lg_k: u8, n: f64, seed: u64, warp: Option<&[f64; 64]>) -> Vec<u32> {
+    simulate_timed(lg_k, n, seed, warp).into_iter().map(|x| x.1).collect()
+}
+
+/// Same, returning (arrival time, coupon) pairs in time order.
+pub fn simulate_timed(lg_k: u8, n: f64, seed: u64, warp: Option<&[f64; 64]>) -> Vec<(f64, u32)> {
     let k = 1u32 << lg_k;
     let mut sm = SplitMix(seed);
     let mut cells: Vec<(f64, u32)> = vec![];
@@ -171,5 +176,5 @@ pub fn simulate(lg_k: u8, n: f64, seed: u64, warp: Option<&[f64; 64]>) -> Vec<u3
         }
     }
     cells.sort_by(|a, b| a.0.partial_cmp(&b.0).unwrap().then(a.1.cmp(&b.1)));
-    cells.into_iter().map(|x| x.1).collect()
+    cells
 }
